@@ -12,6 +12,9 @@ table = "| seed | detected | change / what it needs to manifest | what the check
 p = os.path.join(V, "DESIGN.md")
 s = open(p).read()
 s = re.sub(r"<!-- SEED-TABLE-BEGIN -->.*<!-- SEED-TABLE-END -->", "<!-- SEED-TABLE-BEGIN -->\n" + table.replace("\\", "\\\\") + "\n<!-- SEED-TABLE-END -->", s, flags=re.S)
+det0 = [json.load(open(f))["detected"] for f in glob.glob(os.path.join(V, "seeded", "*", "meta.json"))]
+s = re.sub(r"\d+ changes were written by sub-agents", "%d changes were written by sub-agents" % len(det0), s)
+s = re.sub(r"First-run outcome: \d+ detected as written, \d+ detected only after the check was strengthened", "First-run outcome: %d detected as written, %d detected only after the check was strengthened" % (det0.count("yes"), det0.count("after-strengthening")), s)
 open(p, "w").write(s)
 det = [json.load(open(f))["detected"] for f in glob.glob(os.path.join(V, "seeded", "*", "meta.json"))]
 print(len(rows), {k: det.count(k) for k in set(det)})
